@@ -274,7 +274,7 @@ func (g *Gen) query(o *Obl, extraHyp string, model bool) string {
 	}
 	// slice: only assumptions emitted in blocks that can reach the obligation's block (forward edges)
 	var anc map[int]bool
-	if o.Block >= 0 && !o.Vacuity && g.fn != nil {
+	if o.Block >= 0 && !o.Vacuity && g.fn != nil && os.Getenv("FVC_NOSLICE") == "" {
 		anc = g.ancestors(o.Block)
 	}
 	for i, d := range g.defs[:o.NDefs] {
